@@ -21,7 +21,7 @@ from vmon.util import derive_rng
 
 LEVEL = "exploration"
 MANIFEST = {
-    "text": "A knob grid is run on the real planner: split_every in {False,2,3,4,8,n} x split_out in {1,2,3,True} x shuffle method {tasks,disk} x merge broadcast in {None,True,False,0.1,0.9} x merge/sort/set_index npartitions hints x upsample in {0.5,1,2} x fuse on/off, over reductions, groupby aggregations with 1-3 keys, unique / drop_duplicates / value_counts(normalize), merges of all five kinds with (n_left, n_right) straddling the broadcast threshold and single-partition sides, sort_values / set_index incl. presorted inputs, with 1..33 input partitions (one-row partitions cross the default split_every=8 and max_branch=32 thresholds). Each cell is compared with the default-knob result of the same layout and with pandas; a plan monitor records the algorithm region actually chosen per cell.",
+    "text": "A knob grid is run on the real planner: split_every in {False,2,3,4,8,n} x split_out in {1,2,3,True} x shuffle method {tasks,disk} x merge broadcast in {None,True,False,0.1,0.9} x merge/sort/set_index npartitions hints x upsample in {0.5,1,2} x fuse on/off, over reductions, groupby aggregations with 1-3 keys, unique / drop_duplicates / value_counts(normalize), merges of all five kinds with (n_left, n_right) straddling the broadcast threshold and single-partition sides, sort_values / set_index incl. presorted inputs, with 1..33 input partitions (one-row partitions cross the default split_every=8 and max_branch=32 thresholds). Each cell is compared with the default-knob result of the same layout and with pandas; a plan monitor records the algorithm region actually chosen per cell. The grid includes key columns with missing values (value_counts normalize / dropna, groupby dropna, nunique, unique, drop_duplicates, na_position).",
     "note": "Results compared as multisets where row order is a documented non-guarantee (hash joins, shuffles, split_out). p2p shuffle / HashJoinP2P need `distributed` and are out of reach. quick samples the grid by seed, thorough enumerates it.",
     "technique": "runtime monitoring: metamorphic knob grid against the default-knob execution and pandas, with a plan monitor proving each algorithm region was exercised",
     "design_ref": "DESIGN.md section 4, C10",
